@@ -36,6 +36,9 @@ def obligations(tier):
         obs.append(Ob(f"C03.integrated.note_section[{ix}]", "CH", "harness.h_integrated", "note_section", 1200, {"VF_IDX": ix, "VF_ORDER": 1},
                       funcs=(IN + "InstrumentTrack.from_chart_lines", IN + "NoteEvent.from_parsed_data"),
                       bounds="sustain/end tick/end time/last-note-end through the real parser, sustains spanning the tempo change"))
+    obs.append(Ob("C03.integrated.note_section[0,1;equal lengths]", "CH", "harness.h_integrated", "note_section", 900, {"VF_IDX": "0,1", "VF_ORDER": 0, "VF_EQSUS": 1},
+                  funcs=(IN + "InstrumentTrack.from_chart_lines", IN + "NoteEvent.from_parsed_data"),
+                  bounds="two notes carrying the same (one symbolic) length, one of them possibly spanning the tempo change: a result shared between equal lengths is visible"))
     obs.append(Ob("C03.long_history", "CH", "harness.h_hist", "long_history", 1200,
                   funcs=("chartparse.chart.Chart.from_file (whole pipeline, native execution)",),
                   bounds="30/120/400 parses in one fresh interpreter alternating two of four texts that share every tick but differ in tempo map / resolution, "
